@@ -43,6 +43,7 @@ type Gen struct {
 	globalOrder []string
 	globalDistinct []string
 	extraDecls  []string
+	retDeclared map[string]bool
 	effects     map[*ssa.Function]map[string]bool
 	Funcs       map[string]*ssa.Function // contract key -> function
 	Unsupported map[string][]string      // function key -> reasons
@@ -375,6 +376,38 @@ func sortIdent(s string) string {
 }
 
 // Family returns (declaring on demand) the heap family name.
+// retRel: the graph of a repository function as an uninterpreted relation over (receiver, arguments, results).
+// Every call of the function assumes the relation for its actual arguments and results; a clause can then say
+// "this value is what f returned for those arguments" (returns("pkg.f", args..., results...)).
+func (g *Gen) retRel(fn *ssa.Function) (string, []string) {
+	name := "ret_" + smtIdent(shortKey(FuncKey(fn)))
+	var sorts []string
+	for _, p := range fn.Params {
+		sorts = append(sorts, g.SortOf(p.Type()))
+	}
+	res := fn.Signature.Results()
+	for i := 0; i < res.Len(); i++ {
+		sorts = append(sorts, g.SortOf(res.At(i).Type()))
+	}
+	if g.retDeclared == nil {
+		g.retDeclared = map[string]bool{}
+	}
+	if !g.retDeclared[name] {
+		g.retDeclared[name] = true
+		g.extraDecls = append(g.extraDecls, fmt.Sprintf("(declare-fun %s (%s) Bool)", name, strings.Join(sorts, " ")))
+	}
+	return name, sorts
+}
+
+func (g *Gen) funcByShortKey(k string) *ssa.Function {
+	for key, f := range g.Funcs {
+		if shortKey(key) == k || key == k {
+			return f
+		}
+	}
+	return nil
+}
+
 func (g *Gen) Family(name, sort string) string {
 	if _, ok := g.families[name]; !ok {
 		g.families[name] = sort
